@@ -57,10 +57,27 @@ def free_names(fnode):
 def check_free_names(ix, rep, f, rule, slot):
     """every free name is a builtin, an import, a class/function of the module -- never a module-level data object"""
     bad = []
+    # names bound by an import inside the function: resolved like the module-level imports
+    local_imports = {}
+    for n in ast.walk(f.node):
+        if isinstance(n, ast.Import):
+            for a in n.names:
+                local_imports[(a.asname or a.name).split('.')[0]] = ('mod', a.name)
+        elif isinstance(n, ast.ImportFrom) and n.module and not n.level:
+            for a in n.names:
+                local_imports[a.asname or a.name] = ('from', n.module, a.name)
     for name, node in free_names(f.node).items():
         if hasattr(builtins, name):
             continue
-        ent = ix.lookup(f.module, name)
+        if name in local_imports:
+            imp = local_imports[name]
+            if imp[0] == 'mod' or imp[1] not in ix.modules:
+                continue
+            ent = ix.lookup(ix.modules[imp[1]], imp[2])
+            if ent is None and (imp[1] + '.' + imp[2]) in ix.modules:
+                continue
+        else:
+            ent = ix.lookup(f.module, name)
         if isinstance(ent, (ClassInfo, FuncInfo, External, ModuleRef)):
             continue
         if ent is None:
